@@ -196,7 +196,7 @@ def run_case(case):
         return f
 
     ev("machine-dict", p0, machine, False)
-    ev("strings-exact", p4, strings, False)
+    ev("strings-exact", p4, strings, True)
     ev("file-human", p4, via_file(False), True)
     ev("file-machine", p0, via_file(True), True)
     if case.get("only_event"):
@@ -236,7 +236,7 @@ def main(tier, replay=None):
             if kind == "violation":
                 case = {k: v for k, v in by_id[t["id"]].items() if k != "dir"}
                 case["only_event"] = l
-                rep.violation({"form": ev["form"], "law": ":".join(detail.split(":")[:2])},
+                rep.violation({"form": ev["form"], "law": ":".join(x for x in detail.split(":")[:2] if not x.isdigit())},
                               {"case": case, "event": family.clean_json(ev), "strings": ev.get("_strings"), "verdict": [kind, detail]})
             if l == 2 and len(rep.cov["samples"]) < 3:
                 rep.sample({"form": ev["form"], "printed": ev.get("_strings"), "original_rows_rounded": opsshow(ev["orig"]), "read_back": opsshow(ev["back"]), "verdict": [kind, detail]})
